@@ -235,8 +235,8 @@ func c04SQL(set c04Set, kind string) string {
 		with = " WITH (TIMESTAMP='ts', TIMEUNIT='ms')"
 	case "global":
 		if len(set.Name)%2 == 0 {
-			// a trigger over two aggregates (per-group trigger state of both)
-			grp = append(grp, "GLOBAL WINDOW TRIGGER WHEN count(*) >= 2 AND max(id) > 0")
+			// a trigger over two aggregates that are not selected (per-group trigger state of both)
+			grp = append(grp, "GLOBAL WINDOW TRIGGER WHEN count(id) >= 2 AND max(id) > 0")
 		} else {
 			grp = append(grp, "GLOBAL WINDOW TRIGGER WHEN count(*) >= 2")
 		}
